@@ -91,6 +91,7 @@ func checkC20(r *core.Run) {
 	c20Release(r)
 	c20Block(r)
 	c20Reentry(r)
+	c20Alias(r)
 	r.Floor("C20.reentry", 3)
 	r.Floor("C20.guarded", 15)
 	r.Floor("C20.release", 10)
@@ -992,4 +993,87 @@ func cs0HasValueUse(w *core.World, f *core.FuncInfo) bool {
 		}
 	}
 	return false
+}
+
+// c20Alias: `x := append(shared, ...)` with the result kept in another variable writes — whenever the shared slice
+// has spare capacity — into the shared backing array without changing the shared header: every caller gets a slice
+// over the same cells, two goroutines overwrite each other's elements (a data race), and a later call replaces what
+// an earlier caller still uses. shared = a package-level slice variable (the result must be assigned back to that
+// very variable, which the registration functions do under their own rules), on paths requests reach.
+func c20Alias(r *core.Run) {
+	w := r.W
+	onRequest := w.Reach(requestRoots(w), nil)
+	n := 0
+	for _, f := range w.SortedFuncs() {
+		if w.IsTestFile(f.Decl.Pos()) || f.Decl.Body == nil || strings.Contains(f.Pkg.PkgPath, "/mock") || !onRequest[f] {
+			continue
+		}
+		info := f.Pkg.TypesInfo
+		global := func(e ast.Expr) *types.Var {
+			var id *ast.Ident
+			switch x := ast.Unparen(e).(type) {
+			case *ast.Ident:
+				id = x
+			case *ast.SelectorExpr:
+				id = x.Sel
+			}
+			if id == nil {
+				return nil
+			}
+			v, ok := info.Uses[id].(*types.Var)
+			if !ok || v.IsField() || v.Pkg() == nil || v.Parent() != v.Pkg().Scope() || !strings.HasPrefix(v.Pkg().Path(), core.Module) {
+				return nil
+			}
+			if _, isSlice := v.Type().Underlying().(*types.Slice); !isSlice {
+				return nil
+			}
+			return v
+		}
+		check := func(lhs ast.Expr, rhs ast.Expr, pos token.Pos) {
+			c, ok := ast.Unparen(rhs).(*ast.CallExpr)
+			if !ok || len(c.Args) < 1 {
+				return
+			}
+			id, ok := ast.Unparen(c.Fun).(*ast.Ident)
+			if !ok || id.Name != "append" || info.Uses[id] != types.Universe.Lookup("append") {
+				return
+			}
+			g := global(c.Args[0])
+			if g == nil {
+				return
+			}
+			n++
+			r.Sites++
+			r.Fn(f)
+			back := lhs != nil && global(lhs) == g
+			r.Check(back, "C20.alias", core.ShortKey(f.Obj)+" appends onto the shared slice "+g.Pkg().Name()+"."+g.Name()+" only to assign it back", w.Pos(pos), "result assigned to the same variable",
+				"the result of append("+g.Pkg().Name()+"."+g.Name()+", ...) is kept in another variable: with spare capacity in the shared slice the appended elements are written into the shared backing array, which every other caller's slice also covers — concurrent calls race on those cells and a later call overwrites what an earlier caller is still using")
+		}
+		ast.Inspect(f.Decl.Body, func(x ast.Node) bool {
+			switch s := x.(type) {
+			case *ast.AssignStmt:
+				for i, rh := range s.Rhs {
+					if len(s.Lhs) == len(s.Rhs) {
+						check(s.Lhs[i], rh, s.Pos())
+					}
+				}
+			case *ast.ValueSpec:
+				for _, v := range s.Values {
+					check(nil, v, s.Pos())
+				}
+			case *ast.ReturnStmt:
+				for _, v := range s.Results {
+					check(nil, v, s.Pos())
+				}
+			case *ast.CallExpr:
+				for _, a := range s.Args {
+					check(nil, a, s.Pos())
+				}
+			}
+			return true
+		})
+	}
+	if n == 0 {
+		r.OK("C20.alias", "no append onto a package-level slice on request paths", "", "nothing to alias")
+	}
 }
